@@ -312,3 +312,34 @@ def malformed_line(draw):
             cls += "-hash"
     lead = draw(st.sampled_from(["", "", " ", "\t"]))
     return lead + " ".join(toks), cls
+
+
+def fail_some_reads(tmpdir, how="rows-then-garbage", kinds=("str", "path")):
+    """Reads that fail loudly part-way (the caller catches the error and goes on): rows and a comment first, then a line
+    that is no row / a truncated row.  Whatever such a read leaves behind must not show in the next one."""
+    import io
+    import os
+
+    from swcgeom.core import Tree
+    from swcgeom.core.swc_utils import read_swc
+
+    texts = {
+        "rows-then-garbage": "# left over from a failed read\n1 1 5 5 5 5 -1\n2 3 6 5 5 5 1\n3 3 7 5 5 5 2\nthis is not a row\n4 3 8 5 5 5 3\n",
+        "truncated-row": "1 1 5 5 5 5 -1\n2 3 6 5 5 5 1\n3 3 7 5",
+    }
+    text = texts.get(how, texts["rows-then-garbage"])
+    for kind in kinds:
+        if kind == "path":
+            src = os.path.join(tmpdir, "failing.swc")
+            with open(src, "w", encoding="utf-8") as f:
+                f.write(text)
+        else:
+            src = io.StringIO(text)
+        try:
+            read_swc(src)
+        except Exception:  # noqa
+            pass
+        try:
+            Tree.from_swc(src if kind == "path" else io.StringIO(text))
+        except Exception:  # noqa
+            pass
